@@ -374,6 +374,8 @@ class Decls:
 
 SOLVERS = [
     ("z3-4.8.12", lambda f, t: ["/usr/bin/z3", f"-T:{t}", f]),
+    # same solver, other arithmetic core: decides the sequence-index obligations of nested loops several times faster
+    ("z3-4.8.12-arith2", lambda f, t: ["/usr/bin/z3", f"-T:{t}", "smt.arith.solver=2", f]),
     ("cvc5-1.0.3", lambda f, t: ["/usr/bin/cvc5", "--strings-exp", f"--tlimit={t * 1000}", f]),
     ("z3-5.1.0", lambda f, t: ["z3-new", f"-T:{t}", f]),
 ]
@@ -440,6 +442,9 @@ def solve(smt_text: str, expect: str, budget: int, want_model_for=None, workdir=
         return dict(result="unknown", solver=None, seconds=total, raw="", tried=tried)
     finally:
         try:
+            if os.environ.get("VERIF_KEEP_SLOW") and total > float(os.environ["VERIF_KEEP_SLOW"]):
+                import shutil
+                shutil.copy(path, os.path.join("/tmp", "slow_" + os.path.basename(path)))
             os.unlink(path)
         except OSError:
             pass
